@@ -25,7 +25,7 @@ import (
 )
 
 type corpusItem struct {
-	Path    string   // relative to /repo/format
+	Path    string // relative to /repo/format
 	Data    []byte
 	Formats []string // formats the repository's own tests decode it with (may be empty)
 }
@@ -156,9 +156,14 @@ var (
 
 func allFormats() []string {
 	allFormatsOnce.Do(func() {
-		g := fqx.Registry().MustGroup("all")
-		for _, f := range g.Formats {
-			allFormatsV = append(allFormatsV, f.Name)
+		seen := map[string]bool{}
+		for _, g := range fqx.Registry().Groups() {
+			for _, f := range g.Formats {
+				if !seen[f.Name] {
+					seen[f.Name] = true
+					allFormatsV = append(allFormatsV, f.Name)
+				}
+			}
 		}
 		sort.Strings(allFormatsV)
 	})
